@@ -137,7 +137,7 @@ PROPS["C08"] = dict(
     level_note=_MT_NOTE, technique=_MT_TECH, design_ref="DESIGN.md sections 2.3 and 3 (C08)")
 PROPS["C12"] = dict(
     level="exploration", labels=MT_LABELS, engine="mt",
-    campaigns=[("mt", ["profile=work"], 40000, 800000), ("mt", ["profile=all"], 15000, 300000), ("hyg", ["flood=66000", "cpu_limit=15", "timeout=60"], 16, 64)],
+    campaigns=[("mt", ["profile=work"], 40000, 800000), ("mt", ["profile=all"], 15000, 300000), ("hyg", ["flood=66000", "cpu_limit=45", "timeout=150"], 16, 64)],
     rule="cases = (flood campaign, free-running threads: 66000-70000 items through one pool with 2/8/501/3001 in flight, each must run once in a worker and complete once in the owner and the loop must end - more submissions than a 16-bit sequence counter holds;) (program bytes, schedule bytes): pool with max_threads 1-4, submissions at setup, from completions, from timers at virtual +1 ms / +0.5 s / +9.999 s / +10 s / +10.001 s / +20 s (around the 10 s idle timeout), continuations submitted from work functions, NULL-pool submissions, work functions with yield points, pool release at generated moments; oracles: per item work exactly once in a non-owner thread, completion exactly once in the owner after work returned, running work functions <= max_threads, every submitted item complete when the owner's loop ends, quiescence with incomplete items = violation; non-trivial = a submission while all started workers were busy, or after the idle timeout with a worker still alive, or before any worker ran; distinct = hash(program actions)",
     assumptions=["same scheduler granularity as C08"],
     level_text="exploration of generated submission programs under generated schedules and virtual time across the idle timeout",
@@ -332,6 +332,30 @@ def replay(prop, spec, path):
     return rc
 
 
+# generator regions and oracles added after the seeded rounds 2-4 (DESIGN.md 9.7-9.9); appended to the rule text in the evidence
+RULE_ADD = {
+    "C01": "; also: object structs filled with generated bytes before their INIT macro, the same struct registered again without a second INIT, iv_quit from handlers with up to three iv_main runs, iv_*_registered() queries compared with the model on every callback entry, a struct iv_fd moved to another descriptor from a cross-thread event handler (mt campaign)",
+    "C02": "; also: uninitialised caller memory under the structs, same-struct re-registration, iv_quit + re-run with collected work outstanding, iv_fd_registered() compared with the model in every callback",
+    "C03": "; also: same-struct re-registration and iv_fd_registered() queries as in C02",
+    "C04": "; also: iv_timer_registered() of every other timer compared with the model on every callback entry (a due timer that has not fired is still registered), same-struct re-registration of fired and unregistered timers, iv_quit from a timer handler with other timers of the batch outstanding, then iv_main again",
+    "C05": "; also: previously used timer structs registered again without IV_TIMER_INIT",
+    "C06": "; also: a marathon of 70000 self re-registrations; iv_task_registered() compared with the model in every callback",
+    "C07": "; also: three runs of one task in a row without a kernel poll (task-phase spin); up to three iv_main runs per case",
+    "C08": "; also: owners that are busy (a self re-registering task for 3-65 rounds, so the loop polls with a zero timeout): a completed post must be delivered within four rounds / four polls while every other thread is parked; an owner's first iv_event_register failing with EMFILE (raw-event transport) must leave the thread able to register and receive later; same-struct re-registration of private events; ThreadSanitizer campaign of the race target",
+    "C09": "; also: descriptors opened by iv_event_raw_register and closed by iv_event_raw_unregister must balance and no close() of the library may hit a descriptor that is not open; the eventfd family refused with EPERM from the k-th call on while earlier objects stay in use; iv_quit from a raw handler with other raw events collected, then iv_main again",
+    "C10": "; also: iv_signal_register with out-of-range signal numbers (must fail and leave the signal mask as it was); a forked child that registers an interest of its own beside the inherited ones before raising (poll/ppoll methods) - the parent's handlers must stay silent; an epilogue in which a forked child starts its own loop, registers its first interest and signals itself; same-struct re-registration",
+    "C11": "; also: when the kill helper is called for a child that has terminated but is not reaped and another owner thread exists, the scheduler hands over to that thread at the helper's first synchronisation point in half of the calls",
+    "C12": "; also: pthread_create failing (EAGAIN) when the pool wants a worker, followed by another submission; the owner stalling inside a handler for up to 20 s of virtual time while the other threads run; the struct of an item whose completion is running submitted again",
+    "C13": "; also: worker creation failure, owner stalls and item struct reuse as in C12",
+    "C14": "; also: pool thread_start/thread_stop hooks of different durations, signal interests for one (never sent) number coming and going in all loop threads (thread-restricted and process-wide), an inotify instance per loop thread, the kill helper called repeatedly around the reap, a pending event unregistered while other threads post",
+    "C16": "; also: comparators returning the key difference times 1/2/1000/1000000 (negative/zero/positive contract) in two thirds of the random histories; traversal with iv_avl_tree_for_each and with iv_avl_tree_for_each_safe whose body deletes and frees the node it stands on; large mode: 3000-40000 nodes in worst-case and sorted orders (heights beyond 16)",
+    "C17": "; also: a crowd of 17-26 pumps of one thread back-pressured at the same time and then drained (more idle buffers than the per-thread cache keeps), iv_fd_pump_is_done() compared with the pump's return value",
+    "C18": "; also: an application iv_tls module whose ->deinit_thread calls ivykis functions (hooks must run in an initialised context and be paired); libc's thread cache is filled before the reference measurement",
+    "C19": "; also: fork() failing once at a submission (which must fail cleanly and is repeated), unrelated children of the application that end at the same moment as a popen child and are reported by wait4 first",
+    "C20": "",
+}
+
+
 TARGET_LABELS = {"loop": LOOP_LABELS, "avl": AVL_LABELS, "timers": TIMERS_LABELS, "pump": PUMP_LABELS, "mt": MT_LABELS, "sig": SIG_LABELS,
                  "wait": WAIT_LABELS, "ino": INO_LABELS, "popen": POPEN_LABELS, "hyg": HYG_LABELS, "race": RACE_LABELS}
 
@@ -386,7 +410,7 @@ def run_check(prop, spec, tier, seed, scale, write_evidence=True):
             return
         seen_tags.add(key)
         params, data = vlib.read_case(casefile)
-        small, params = vlib.shrink(exe, params, data, r, outdir, budget_s=45 if tier == "quick" else 120)
+        small, params = vlib.shrink(exe, params, data, r, outdir, budget_s=int(os.environ.get("VERIF_SHRINK_S", 45 if tier == "quick" else 120)))
         hh = hashlib.sha1(small).hexdigest()[:10]
         safe = re.sub(r"[^A-Za-z0-9_.@-]", "_", r["tag"])[:60]
         rp = os.path.join(rdir, "%s-%s.case" % (safe, hh))
@@ -464,7 +488,7 @@ def run_check(prop, spec, tier, seed, scale, write_evidence=True):
             counters[i] += summ["c"][i]
         hashes |= summ["hashes"]
         samples += [(exe, s) for s in samp[:2]]
-        for f in fails[:6]:
+        for f in fails[:int(os.environ.get("VERIF_MAXFAIL", 6))]:
             handle_failure(exe, f["file"], "campaign %d (%s %s) idx %d" % (ci, target, " ".join(params), f["idx"]))
 
     wall = time.time() - t0
@@ -479,7 +503,7 @@ def run_check(prop, spec, tier, seed, scale, write_evidence=True):
         names = TARGET_LABELS.get(tg, [])
         labcounts["%s.%s" % (tg, names[i] if i < len(names) else "label%d" % i)] = cnt
     ev = dict(property_id=prop, tier=tier, seed=seed, level=spec["level"],
-              coverage=dict(evaluations=tot["evals"], distinct_nontrivial=len(hashes) + enum_nontrivial[0], rule=spec["rule"], samples=sample_out + enum_samples[:3],
+              coverage=dict(evaluations=tot["evals"], distinct_nontrivial=len(hashes) + enum_nontrivial[0], rule=spec["rule"] + RULE_ADD.get(prop, ""), samples=sample_out + enum_samples[:3],
                             exhaustive=bool(exhaustive_note), exhaustive_scope="; ".join(exhaustive_note),
                             conclusive=tot["ok"] + tot["viol"] + tot["crash"], inconclusive=tot["inc"], corpus_cases=ncorp,
                             label_counts=labcounts, counters=counters, violations_reported=nviol, known_findings_reported=nknown),
